@@ -168,6 +168,17 @@ impl PrivateBatchCircuit {
     }
 }
 
+/// Verification hook: instantiate the private-batch wrapper constraints over
+/// caller-supplied (e.g. free, verifier-less) child proof targets.
+#[cfg(quantus_network_qp_zk_circuits_verif)]
+pub fn verif_build_private_batch_constraints(
+    builder: &mut CircuitBuilder<F, D>,
+    targets: &PrivateBatchCircuitTargets,
+    n_leaf: usize,
+) {
+    build_private_batch_constraints(builder, targets, n_leaf)
+}
+
 fn build_private_batch_constraints(
     builder: &mut CircuitBuilder<F, D>,
     targets: &PrivateBatchCircuitTargets,
